@@ -287,7 +287,10 @@ class URLInfo(object):
     @property
     def query_map(self):
         if self._query_map is None:
-            self._query_map = query_to_map(self.query)
+            if self.query is None:
+                self._query_map = {}
+            else:
+                self._query_map = query_to_map(self.query)
         return self._query_map
 
     @property
@@ -678,7 +681,7 @@ def query_to_map(text):
         else:
             dict_obj[key].append('')
 
-    return query_to_map(text)
+    return dict_obj
 
 
 @functools.lru_cache()
